@@ -44,9 +44,9 @@ Parse(s) ==
 HasErr(ev) == \E i \in 1..Len(ev) : ev[i][1] = "E"
 OutOf(s) == LET ev == Parse(s) IN [i |-> s, ev |-> ev, cls |-> IF HasErr(ev) THEN "err" ELSE "wf"]
 
-Strs == UNION { [1..n -> Alphabet] : n \in 0..MaxLen }
-InPart(s) == IF s = <<>> THEN 256 \in First ELSE s[1] \in First
-Init == buf \in { s \in Strs : InPart(s) } /\ out = OutOf(buf)
+StrsUpTo(k) == UNION { [1..n -> Alphabet] : n \in 0..k }
+Part == (IF 256 \in First THEN {<<>>} ELSE {}) \cup { <<a>> \o t : a \in First \ {256}, t \in StrsUpTo(MaxLen - 1) }   \* partition on the first byte (256 = the empty string)
+Init == buf \in Part /\ out = OutOf(buf)
 Next == FALSE /\ UNCHANGED <<buf, out>>
 Emit == PrintT(<<"CASE", ToJson(out)>>)
 
